@@ -184,6 +184,18 @@ impl SaltString {
         ensures r@ == self@,
     { unimplemented!() }
 }
+/// R7b: the bound `S: AsRef<str>` of `KeyDerivation::parse_salt` (vstd does not
+/// declare `AsRef`); std meaning at the one type it is used with, `&String`
+/// (alloc/src/string.rs `impl AsRef<str> for String`: the string itself)
+pub trait StrRef {
+    spec fn chars(&self) -> Seq<char>;
+    fn as_ref(&self) -> (r: &str)
+        ensures r@ == self.chars();
+}
+impl StrRef for &String {
+    open spec fn chars(&self) -> Seq<char> { (**self)@ }
+    fn as_ref(&self) -> (r: &str) { self.as_str() }
+}
 /// the PHC string a password-hashing function (`Argon2::default()` /
 /// `Balloon::<Sha256>::default()` `.hash_password`) produces, as bytes
 pub uninterp spec fn KDF(kind: KeyDerivation, password: Seq<u8>, salt: Seq<char>) -> Seq<u8>;
